@@ -603,12 +603,21 @@ func ruleC10R5(r *Run) {
 		case ex == "$t.ctx":
 			// on every feasible path to this return, a branch established t.ctx != nil or a WithCancel context was stored
 			okPaths, nPaths := true, 0
-			complete := p.pathsFrom(fn.Blocks[0], 400, func(cp *cfgPath, back bool) {
+			// a return inside an inlined helper (contextLocked, called with the lock held): the paths are the helper's,
+			// starting from what is known at its call
+			start, known := fn.Blocks[0], false
+			if ret.Parent() != fn {
+				start = ret.Parent().Blocks[0]
+				if site := p.helperSite(ret.Parent()); site != nil {
+					known = holds(p.facts(site), "$t.ctx", "!=", "nil")
+				}
+			}
+			complete := p.pathsFrom(start, 400, func(cp *cfgPath, back bool) {
 				if back || cp.infeasible || cp.blocks[len(cp.blocks)-1] != ret.Block() {
 					return
 				}
 				nPaths++
-				nonnil := false
+				nonnil := known
 				for i, b := range cp.blocks {
 					for _, in := range b.Instrs {
 						if st, ok := in.(*ssa.Store); ok && p.expr(st.Addr) == "&$t.ctx" {
@@ -684,7 +693,13 @@ func ruleC10R5(r *Run) {
 	for _, cs := range p.callsTo(fn, "(*sync/atomic.Bool).Load") {
 		if p.expr(cs.Recv()) == "&$t.cleaning" {
 			for _, st := range p.fieldAccesses("T") {
-				if st.Fn == fn && st.Field == "ctx" && st.Kind == "write" && dominates(cs.Instr, st.Instr) {
+				var at ssa.Instruction = st.Instr
+				if st.Fn != fn && p.within(st.Fn, fn) { // the store sits in an inlined helper (contextLocked): located by its call
+					if l := p.liftTo(st.Instr, fn); l != nil {
+						at = l
+					}
+				}
+				if p.within(st.Fn, fn) && st.Field == "ctx" && st.Kind == "write" && dominates(cs.Instr, at) {
 					okCleaning = true
 					// … and it is sequenced after a locked read that found no context (or made under the write lock of the
 					// store): cleanup sets cleaning before it takes the lock to cancel and clear, so "ctx == nil seen under
